@@ -1014,6 +1014,10 @@ fn do_extract(args: &BTreeMap<String, String>) -> Result<(), String> {
     // ---- L2 pre-pass: registry of skeletonised functions ("Type::fn" -> (skeleton name, returns Result))
     let mut skel_cfg = skel::Cfg::default();
     let mut inlined_helpers: Vec<String> = Vec::new();
+    // parameter names the contract texts were written against (committed baseline): a renamed parameter is renamed in the
+    // contract/hint texts of that function as well (R22)
+    let params_baseline: serde_json::Value = args.get("params-baseline").and_then(|p| std::fs::read_to_string(p).ok()).and_then(|t| serde_json::from_str(&t).ok()).unwrap_or(json!({}));
+    let mut param_names_out: BTreeMap<String, Vec<String>> = BTreeMap::new();
     let mut registry: BTreeMap<String, (String, bool)> = BTreeMap::new();
     {
         let mut cs: Option<String> = None;
@@ -1140,6 +1144,46 @@ fn do_extract(args: &BTreeMap<String, String>) -> Result<(), String> {
                         take_owned.subs[pos] = Sub::Contract(merged);
                     }
                 }
+                {
+                    // R22: parameter renames
+                    let sig_opt: Option<&syn::Signature> = match find_item(&src.file, &take_owned.sel) {
+                        Ok(Found::ImplFn(_, f)) => Some(&f.sig),
+                        Ok(Found::Item(syn::Item::Fn(f))) => Some(&f.sig),
+                        _ => None,
+                    };
+                    if let Some(sig) = sig_opt {
+                        let cur: Vec<String> = sig.inputs.iter().filter_map(|a| match a { syn::FnArg::Typed(pt) => match &*pt.pat { syn::Pat::Ident(pi) => Some(pi.ident.to_string()), _ => Some(String::from("_")) }, _ => None }).collect();
+                        let key = take_owned.sel.join(" ");
+                        param_names_out.insert(key.clone(), cur.clone());
+                        let base: Vec<String> = params_baseline.get(&unit).or_else(|| params_baseline.get(unit.trim_start_matches("U-").trim_start_matches("S-"))).and_then(|u| u.get(&key)).and_then(|v| v.as_array()).map(|a| a.iter().filter_map(|x| x.as_str().map(|s| s.to_string())).collect()).unwrap_or_default();
+                        if base.len() == cur.len() && base != cur {
+                            let pairs: Vec<(String, String)> = base.iter().cloned().zip(cur.iter().cloned()).filter(|(a, b)| a != b && a != "_" && b != "_").collect();
+                            let sub_words = |t: &str| -> String {
+                                // simultaneous word-boundary substitution
+                                let mut out = String::new();
+                                let cs: Vec<char> = t.chars().collect();
+                                let mut i = 0;
+                                while i < cs.len() {
+                                    if cs[i].is_alphabetic() || cs[i] == '_' {
+                                        let st = i;
+                                        while i < cs.len() && (cs[i].is_alphanumeric() || cs[i] == '_') { i += 1; }
+                                        let w: String = cs[st..i].iter().collect();
+                                        match pairs.iter().find(|(a, _)| *a == w) { Some((_, b)) => out.push_str(b), None => out.push_str(&w) }
+                                    } else { out.push(cs[i]); i += 1; }
+                                }
+                                out
+                            };
+                            for sb in take_owned.subs.iter_mut() {
+                                match sb {
+                                    Sub::Contract(t) | Sub::Start(t) | Sub::End(t) | Sub::LoopStart(_, t) => *t = sub_words(t),
+                                    Sub::Closure(_, _, t) | Sub::Loop(_, _, t) | Sub::Before(_, t) | Sub::After(_, t) | Sub::LockRelease(_, t) => *t = sub_words(t),
+                                    _ => {}
+                                }
+                            }
+                            *em.rules.entry("R22-param-rename".to_string()).or_insert(0) += pairs.len();
+                        }
+                    }
+                }
                 let take = &take_owned;
                 let found = find_item(&src.file, &take.sel)?;
                 if let Some(exp) = &take.expect {
@@ -1193,7 +1237,7 @@ fn do_extract(args: &BTreeMap<String, String>) -> Result<(), String> {
                     let first_line = em.lines.len() + 1;
                     let hdr = if retres { format!("pub fn {}(w: &mut World) -> (ok: bool)", skname) } else { format!("pub fn {}(w: &mut World)", skname) };
                     em.lines.push(OutLine { text: format!("// skeleton of {} ({}:{})", key, sp, sl), src: Some((sp.clone(), sl)), func: Some(fdisp.clone()), label: None });
-                    em.lines.push(OutLine { text: "#[verifier::exec_allows_no_decreases_clause] #[verifier::loop_isolation(false)]".into(), src: None, func: Some(fdisp.clone()), label: None });
+                    em.lines.push(OutLine { text: "#[verifier::exec_allows_no_decreases_clause] #[verifier::loop_isolation(false)] #[verifier::allow_complex_invariants]".into(), src: None, func: Some(fdisp.clone()), label: None });
                     em.lines.push(OutLine { text: hdr, src: Some((sp.clone(), sl)), func: Some(fdisp.clone()), label: None });
                     for (l, lab) in labelled_lines(&contract, "contract") {
                         em.lines.push(OutLine { text: l, src: None, func: Some(fdisp.clone()), label: Some(format!("{}::{}", fdisp, lab)) });
@@ -1210,7 +1254,7 @@ fn do_extract(args: &BTreeMap<String, String>) -> Result<(), String> {
                         let cc = take.closure_contracts.iter().find(|(n, _)| *n == local).map(|(_, t)| t.clone()).unwrap_or_default();
                         let cdisp = format!("{}::closure[{}]", fdisp, local);
                         let f0 = em.lines.len() + 1;
-                        em.lines.push(OutLine { text: "#[verifier::exec_allows_no_decreases_clause] #[verifier::loop_isolation(false)]".into(), src: None, func: Some(cdisp.clone()), label: None });
+                        em.lines.push(OutLine { text: "#[verifier::exec_allows_no_decreases_clause] #[verifier::loop_isolation(false)] #[verifier::allow_complex_invariants]".into(), src: None, func: Some(cdisp.clone()), label: None });
                         em.lines.push(OutLine { text: format!("pub fn {}(w: &mut World) -> (ok: bool)", cname), src: Some((sp.clone(), sl)), func: Some(cdisp.clone()), label: None });
                         for (l, lab) in labelled_lines(&cc, "contract") {
                             em.lines.push(OutLine { text: l, src: None, func: Some(cdisp.clone()), label: Some(format!("{}::{}", cdisp, lab)) });
@@ -1440,7 +1484,7 @@ fn do_extract(args: &BTreeMap<String, String>) -> Result<(), String> {
         let f0 = 0usize;
         let _ = f0;
         auto_lines.push(OutLine { text: format!("// skeleton of {} ({}:{}) — called by a skeleton, not under contract: no ensures (callers learn nothing)", fdisp, sp, sl), src: Some((sp.clone(), sl)), func: Some(fdisp.clone()), label: None });
-        auto_lines.push(OutLine { text: "#[verifier::exec_allows_no_decreases_clause] #[verifier::loop_isolation(false)]".into(), src: None, func: Some(fdisp.clone()), label: None });
+        auto_lines.push(OutLine { text: "#[verifier::exec_allows_no_decreases_clause] #[verifier::loop_isolation(false)] #[verifier::allow_complex_invariants]".into(), src: None, func: Some(fdisp.clone()), label: None });
         auto_lines.push(OutLine { text: if retres { format!("pub fn {}(w: &mut World) -> (ok: bool)", skname) } else { format!("pub fn {}(w: &mut World)", skname) }, src: Some((sp.clone(), sl)), func: Some(fdisp.clone()), label: None });
         auto_lines.push(OutLine { text: "{".into(), src: None, func: Some(fdisp.clone()), label: None });
         for l in so.text.lines() { auto_lines.push(OutLine { text: l.to_string(), src: Some((sp.clone(), sl)), func: Some(fdisp.clone()), label: None }); }
@@ -1460,6 +1504,15 @@ fn do_extract(args: &BTreeMap<String, String>) -> Result<(), String> {
                 seen = String::from("no such field");
                 for (i, f) in st.fields.iter().enumerate() {
                     let fname = f.ident.as_ref().map(|x| x.to_string()).unwrap_or_else(|| i.to_string());
+                    if let Some(later) = want.strip_prefix("before:") {
+                        // field-order fact (drop order = declaration order): `field` is declared before the field `later`
+                        let pos_a = st.fields.iter().position(|g| g.ident.as_ref().map(|x| x.to_string().contains(field.as_str())).unwrap_or(false));
+                        let pos_b = st.fields.iter().position(|g| g.ident.as_ref().map(|x| x.to_string().contains(later)).unwrap_or(false));
+                        seen = format!("positions {:?} / {:?}", pos_a, pos_b);
+                        if let (Some(a), Some(b)) = (pos_a, pos_b) { holds = a < b; }
+                        let _ = (i, f);
+                        break;
+                    }
                     if field != "*" && !fname.contains(field.as_str()) { continue; }
                     let ty = norm(src.slice(src.range(&f.ty)));
                     seen = format!("{}: {}", fname, ty);
@@ -1539,7 +1592,7 @@ fn do_extract(args: &BTreeMap<String, String>) -> Result<(), String> {
     let m = json!({
         "unit": unit, "spec": spec_path, "lines": map, "rewrites": em.rules,
         "functions": em.functions, "trusted": trusted, "missing_optional_anchors": em.missing_anchors.iter().filter(|m| !m.starts_with("closure-without-contract:")).cloned().collect::<Vec<_>>(),
-        "closures_without_contract": em.missing_anchors.iter().filter_map(|m| m.strip_prefix("closure-without-contract: ")).map(|m| { let p: Vec<&str> = m.split(" | ").collect(); json!({"fn": p[0], "passed_to": p[1], "params": p[2], "line": p[3]}) }).collect::<Vec<_>>(), "unclassified_calls": em.unknown_calls, "inlined_helpers": inlined_helpers,
+        "closures_without_contract": em.missing_anchors.iter().filter_map(|m| m.strip_prefix("closure-without-contract: ")).map(|m| { let p: Vec<&str> = m.split(" | ").collect(); json!({"fn": p[0], "passed_to": p[1], "params": p[2], "line": p[3]}) }).collect::<Vec<_>>(), "unclassified_calls": em.unknown_calls, "inlined_helpers": inlined_helpers, "param_names": param_names_out,
     });
     std::fs::write(map_path, serde_json::to_string(&m).unwrap()).map_err(|e| format!("{map_path}: {e}"))?;
     Ok(())
